@@ -24,7 +24,7 @@ Tie to /repo (C, hand-written model + correspondence):
     proximal operator (anything else is an uncovered obligation).
   * round 4: `PointwiseNorm._abs_pow_ufunc` (3 branches), the gradient operators of
     default_functionals.py through the default in-place bridge, `GroupL1Gradient` and
-    `RosenbrockGradient` in place have model programs in Model/ProxAux.lean (`auxProg`, `rosenProg`),
+    `RosenbrockGradient` in place have model programs in Model/ProxAux.lean (`auxProg`, `rosenFixed`),
     executed by the driver op `aux` and compared exactly like the proximal bodies (streams
     aux-correspondence, aux-iterated-alias, incl. the raise path of KLCrossEntropyGradient); the
     element-wise bodies are also compared on 2-d spaces (prog-2d); gradient Operator classes under
